@@ -8,3 +8,39 @@ package lexer
 //@   props C13 C14
 //@   writers newLexicon
 //@   note newLexicon passes builtInOpers to oper.Sort (sort.SliceStable, in place); the slice holds two one-character operators, for which the comparator never reports an inversion, so no element is written
+
+// ---- token positions (C09) -------------------------------------------------
+// Index-level half of "tokens partition the input": proved for all inputs
+// and all rule sets.  Assumed (listed): a rule's match function does not
+// modify the lexer (it is a closure over strings / a compiled regexp).
+// Line / column bookkeeping is the contract of (*Pos).Move, which both loops
+// call once per consumed rune.
+
+//@ func (*lexer).skipSpace
+//@   props C09
+//@   requires l != nil && 0 <= l.Idx
+//@   nopanic
+//@   modifies l.Idx, l.Line, l.Col
+//@   loop 1 invariant old(l.Idx) <= l.Idx && l.IdxEnd == old(l.IdxEnd) && (old(l.Idx) <= len(l.input) ==> l.Idx <= len(l.input))
+//@   loop 1 invariant forall(i, old(l.Idx), l.Idx, isSpace(l.input[i]))
+//@   ensures #forward old(l.Idx) <= l.Idx && l.IdxEnd == old(l.IdxEnd)
+//@   ensures #only-space forall(i, old(l.Idx), l.Idx, isSpace(l.input[i]))
+//@   ensures #stops l.Idx < len(l.input) ==> !isSpace(l.input[l.Idx])
+//@   ensures #bound old(l.Idx) <= len(l.input) ==> l.Idx <= len(l.input)
+
+//@ func (*lexer).next
+//@   props C09
+//@   uses dyncalls-pure
+//@   requires l != nil && 0 <= l.Idx && l.Idx <= len(l.input)
+//@   modifies l.Idx, l.Line, l.Col
+//@   loop 1 invariant l.Idx == p.Idx && l.IdxEnd == old(l.IdxEnd) && old(l.Idx) <= p.Idx && p.Idx < len(l.input) && !isSpace(l.input[p.Idx])
+//@   loop 1 invariant forall(i, old(l.Idx), p.Idx, isSpace(l.input[i]))
+//@   loop 2 invariant old(l.Idx) <= p.Idx && p.Idx < len(l.input) && !isSpace(l.input[p.Idx]) && forall(i, old(l.Idx), p.Idx, isSpace(l.input[i]))
+//@   loop 2 invariant l.Idx == p.Idx + rangeindex + 1 && l.IdxEnd == old(l.IdxEnd) && len(matched) == offset && 0 <= offset
+//@   ensures #eof result == EOF ==> l.Idx >= len(l.input)
+//@   ensures #gap forall(i, old(l.Idx), ite(result == EOF, l.Idx, result.Idx), isSpace(l.input[i]))
+//@   ensures #start result != EOF ==> old(l.Idx) <= result.Idx && result.Idx < len(l.input) && !isSpace(l.input[result.Idx])
+//@   ensures #end1 result != EOF ==> result.Idx <= result.IdxEnd
+//@   ensures #end2 result != EOF ==> result.IdxEnd == l.Idx
+//@   ensures #end3 result != EOF ==> result.Idx <= l.Idx
+//@   ensures #monotone old(l.Idx) <= l.Idx
